@@ -171,6 +171,18 @@ def table():
             row(f"{kind}.cumulative.two_tasks", ACCEPT, lambda kind=kind: rc(kind, 2, True), "unassigned_resource")
     for kind in ("ResourceTasksDistance", "ResourceNonDelay"):
         row(f"{kind}.cumulative.two_tasks", ACCEPT, lambda kind=kind: rc(kind, 2, True), "cumulative_sorted_busy_table")
+    row("ScheduleN.max1.one_task", ACCEPT, lambda: (P(), ps.ScheduleNTasksInTimeIntervals(
+        list_of_tasks=[T("a")], nb_tasks_to_schedule=1, list_of_time_intervals=[(0, 4)], kind="max")), "single_element")
+    row("ScheduleN.max1.one_task.two_intervals", ACCEPT, lambda: (P(), ps.ScheduleNTasksInTimeIntervals(
+        list_of_tasks=[T("a")], nb_tasks_to_schedule=1, list_of_time_intervals=[(0, 3), (5, 8)], kind="max")),
+        "single_element")
+
+    def repeated_interval():
+        P()
+        w = ps.Worker(name="w")
+        T("a").add_required_resource(w)
+        ps.ResourceUnavailable(resource=w, list_of_time_intervals=[(0, 2), (0, 2)])
+    row("ResourceUnavailable.repeated_interval", ACCEPT, repeated_interval, "single_element")
     row("TasksContiguous.one_task", ACCEPT, lambda: (P(), ps.TasksContiguous(list_of_tasks=[T("a")])), "single_element")
     row("TasksContiguous.two_tasks", ACCEPT, lambda: (P(), ps.TasksContiguous(list_of_tasks=[T("a"), T("b")])),
         "single_element")
